@@ -16,9 +16,10 @@ grep -q '^package nutsdb' .seed/seed_demo_test.go && pkgdir=.
 grep -q '^package list' .seed/seed_demo_test.go && pkgdir=ds/list
 grep -q '^package set' .seed/seed_demo_test.go && pkgdir=ds/set
 grep -q '^package zset' .seed/seed_demo_test.go && pkgdir=ds/zset
+tags=''; grep -q 'go:build verif' .seed/seed_demo_test.go && tags='-tags verif'
 # demo passes on the clean tree
 cp .seed/seed_demo_test.go $pkgdir/seed_demo_test.go
-if ! (cd $pkgdir && go test -vet=off -count=1 -run 'SeedDemo' . >/tmp/seed-$id-clean.log 2>&1); then echo "$id: demo FAILS on the clean tree"; rm -f $pkgdir/seed_demo_test.go; exit 1; fi
+if ! (cd $pkgdir && go test $tags -vet=off -count=1 -run 'SeedDemo' . >/tmp/seed-$id-clean.log 2>&1); then echo "$id: demo FAILS on the clean tree"; rm -f $pkgdir/seed_demo_test.go; exit 1; fi
 grep -q '^ok' /tmp/seed-$id-clean.log || { echo "$id: demo did not run on the clean tree"; cat /tmp/seed-$id-clean.log | tail -3; }
 rm -f $pkgdir/seed_demo_test.go
 git apply .seed/patch.diff || { echo "$id: patch does not apply"; exit 1; }
@@ -26,7 +27,7 @@ go build ./... || { echo "$id: does not build"; git checkout -q -- .; exit 1; }
 go build -tags verif ./... || { echo "$id: does not build with -tags verif"; git checkout -q -- .; exit 1; }
 if ! go test -vet=off -count=1 ./... >/tmp/seed-$id-suite.log 2>&1; then echo "$id: suite FAILS with the patch"; tail -5 /tmp/seed-$id-suite.log; git checkout -q -- .; exit 1; fi
 cp .seed/seed_demo_test.go $pkgdir/seed_demo_test.go
-if (cd $pkgdir && go test -vet=off -count=1 -run 'SeedDemo' . >/tmp/seed-$id-patched.log 2>&1); then echo "$id: demo PASSES with the patch (not a seed)"; rm -f $pkgdir/seed_demo_test.go; git checkout -q -- .; exit 1; fi
+if (cd $pkgdir && go test $tags -vet=off -count=1 -run 'SeedDemo' . >/tmp/seed-$id-patched.log 2>&1); then echo "$id: demo PASSES with the patch (not a seed)"; rm -f $pkgdir/seed_demo_test.go; git checkout -q -- .; exit 1; fi
 rm -f $pkgdir/seed_demo_test.go
 git checkout -q -- .
 mkdir -p /verif/seeded/$id
